@@ -104,6 +104,25 @@ def run(tier):
                     needles.append({"name": "session-key", "bytes": B(key)})
                 if needles:
                     rec.add({"op": "c06.scan", "text": L.chars(text), "needles": needles})
+        # contents chosen BACKWARDS from the ciphertext: the stored payload looks like something else (a well-formed TLV
+        # configuration, zeros, FF.., a BF3 / BEC2 signature, ASCII hex) - it is ciphertext all the same and reads back as the content
+        from bec2format.crypto import create_AES128 as _mk
+        looks = [bytes([0x0E, 0x01, 0x01, 0x02, 0x03, 0x01, 0xAA, 0x01, 0x01, 0x02, 0x04, 0x01, 0xBB, 0xFF, 0xFF, 0x00]),
+                 bytes([0x1E, 0x01, 0x06, 0x20, 0x01, 0x02, 0x12, 0x34, 0x05, 0x02, 0x00, 0x07, 0xFF] + [0x02, 0x01, 0x02] * 6 + [0x00]),
+                 bytes(16), bytes([255] * 32), b"BF3\x00\x00" + bytes(11), b"BEC2\x00" + bytes(27), b"0123456789ABCDEF" * 2,
+                 bytes([0x02, 0x01, 0x80, 0x00] + [0] * 12)]
+        for look in looks:
+            for key in (L.ZERO_KEY, L.gen_key(r)):
+                try:
+                    plain = _mk(bytes(key)).decrypt(look)               # (the library's cipher only to CRAFT the content)
+                except Exception:                                      # noqa: BLE001
+                    continue
+                for desc in (CFG_DESC, {0xC3: b"\x03", 0xC2: b"\x02", 0xC1: b"\x03"}):
+                    f = Bf3File({}, [L.mk_comp(desc, plain, len(plain), True)])
+                    L.rec_to_binary(rec, f, 5, key)
+                    text = L.rec_write(rec, f, key, False, wd)
+                    L.rec_read(rec, text, key, True, False, wd, auth=rec.last_written)
+                    L.rec_read(rec, text, key, False, False, wd, auth=rec.last_written)
         # components marked for encryption in every way the object model allows: declared length given / not given (None),
         # with the ENC tag, without it, with a 2-byte ENC value, with an empty description - the FLAG decides, and the stored
         # payload must be ciphertext of the zero-padded content in all cases
